@@ -233,6 +233,18 @@ func (s *supARFO) childTerminated(name gen.Atom, pid gen.PID, reason error) supA
 	if s.mode == 2 { // stopping (restarting)
 
 		if s.keeporder == false {
+			if specI < s.restartI {
+				// terminated child is in front of the children we are restarting.
+				// restart from this child and stop the running ones in between
+				s.restartI = specI
+				if terminate := s.childrenForTermination(); len(terminate) > 0 {
+					action.do = supActionTerminateChildren
+					action.reason = reason
+					action.terminate = terminate
+					return action
+				}
+			}
+
 			if len(s.wait) > 0 {
 				// return action with empty list. just wait for the child processes
 				// to be terminated
@@ -475,6 +487,10 @@ func (s *supARFO) childrenForTermination() []gen.PID {
 		}
 
 		pid := s.spec[k].pid
+		if s.wait[pid] {
+			// has been asked to terminate already
+			continue
+		}
 		s.wait[pid] = true
 		terminate = append(terminate, pid)
 		if s.keeporder {
